@@ -66,6 +66,11 @@ func buildReplay(eng *Engine, repo, pid string, sm *oblSummary, path string) str
 	}
 	if sm.Status == "refuted" {
 		rf.Values = parseValues(sm.Model)
+		if _, ok := replayBuilders[sm.Func]; ok {
+			if small := minimiseModel(sm.Script); small != nil {
+				rf.Values = small
+			}
+		}
 		if b, ok := replayBuilders[sm.Func]; ok {
 			if dir, name, src, ok := b(rf.Values, sm); ok {
 				rf.PkgDir, rf.TestName, rf.TestSrc = dir, name, src
@@ -164,4 +169,40 @@ func runReplayFile(path, repo string) int {
 	}
 	fmt.Println("replay passes on this tree")
 	return 0
+}
+
+// minimiseModel re-asks the solver for a counterexample whose integer entry values are small,
+// so that replays stay small; nil when no such model exists.
+func minimiseModel(script string) map[string]string {
+	i := strings.LastIndex(script, "(check-sat)")
+	if i < 0 {
+		return nil
+	}
+	var names []string
+	for _, m := range regexp.MustCompile(`\(define-fun (ev![^ ]+) \(\) Int `).FindAllStringSubmatch(script, -1) {
+		names = append(names, m[1])
+	}
+	if len(names) == 0 {
+		return nil
+	}
+	for _, bound := range []int{8, 64, 4096} {
+		var b strings.Builder
+		b.WriteString(script[:i])
+		for _, n := range names {
+			fmt.Fprintf(&b, "(assert (and (<= (- %d) %s) (<= %s %d)))\n", bound, n, n, bound)
+		}
+		b.WriteString(script[i:])
+		f, err := os.CreateTemp("", "govc-min-*.smt2")
+		if err != nil {
+			return nil
+		}
+		f.WriteString(b.String())
+		f.Close()
+		r := runSolver(context.Background(), solvers[0], f.Name(), 3000)
+		os.Remove(f.Name())
+		if r.status == "sat" {
+			return parseValues(modelOf(r))
+		}
+	}
+	return nil
 }
